@@ -184,7 +184,7 @@ Lemma release_all_shape svcs node ps : forall m m' r, release_all svcs m node ps
 Proof.
   induction ps as [|p ps IH]; intros m m' r H; cbn in H; [inversion H; reflexivity|].
   destruct (get_entry m p) as [c|]; [|inversion H; reflexivity].
-  destruct (release_pcidrs c (n_cidrs node)) as [c' rr]. destruct rr as [[]|e|].
+  destruct (release_pcidrs svcs c (n_cidrs node)) as [c' rr]. destruct rr as [[]|e|].
   - rewrite (IH _ _ _ H). apply shape_set_entry.
   - inversion H; subst. apply shape_set_entry.
   - inversion H; subst. apply shape_set_entry.
@@ -242,7 +242,7 @@ Lemma release_all_no_panic svcs node ps : forall m, Forall (valid m) ps -> snd (
 Proof.
   induction ps as [|p ps IH]; intros m Hv; cbn; [discriminate|].
   inversion Hv; subst. destruct (valid_some _ _ H1) as (e & He). rewrite He.
-  destruct (release_pcidrs e (n_cidrs node)) as [e' rr] eqn:Er.
+  destruct (release_pcidrs svcs e (n_cidrs node)) as [e' rr] eqn:Er.
   assert (Hrr : rr <> Panic).
   { clear - Er. revert e e' rr Er. induction (n_cidrs node) as [|pc l IHl]; intros e e' rr Er; cbn in Er; [inversion Er; discriminate|].
     destruct pc as [|x cn]; [inversion Er; discriminate|]. unfold cc_release in Er.
@@ -385,7 +385,7 @@ Proof. unfold KU, filter_service. rewrite map_map. cbn. intros H. exact H. Qed.
 Lemma KU_create m o t b out m' r fx : KU m -> create_cluster_cidr m o t b out = (m', r, fx) -> KU m'.
 Proof.
   intros HK H. unfold create_cluster_cidr in H. destruct (o_selkey o) as [k|]; [|inversion H; subst; exact HK].
-  destruct (create_set o t) as [c|e|]; try (inversion H; subst; exact HK).
+  destruct (create_set o t b) as [c|e|]; try (inversion H; subst; exact HK).
   assert (Hm : KU (if is_mapped m k (o_name o) then m else map_set m k c)) by (destruct (is_mapped m k (o_name o)); [exact HK|apply KU_map_set; exact HK]).
   destruct (cc_v4 c), (cc_v6 c); try (inversion H; subst; exact HK);
     (destruct b; [inversion H; subst; exact Hm|]; destruct (need_finalizer o); [destruct out|]; inversion H; subst; first [exact Hm|exact HK]).
